@@ -79,7 +79,42 @@ def check(case):
             "sample": {"pending": pending, "before": src, "after": allatonce.decode()}}
 
 
+def check_pytest(case):
+    """all-at-once through a *real* session (the plugin applies the categories step by step for its diff
+    display) against one category per run on the in-process driver"""
+    import shutil
+
+    prog = case["prog"]
+    src, order = gp.render_program(prog)
+    b0 = src.encode()
+    probe = _run(b0, (), "probe", src)
+    pending = sorted(probe.reported)
+    if len(pending) < 2:
+        return {"nontrivial": False, "classes": [f"k={len(pending)}"]}
+    cur = b0
+    for cat in pending:
+        cur = _run(cur, [cat], f"step {cat}", src).files_after["test_a.py"]
+    ref = _dump(cur, "one at a time", src)
+    d = drivers.make_project({"test_a.py": src})
+    try:
+        r = drivers.run_pytest(d, ["--inline-snapshot=" + ",".join(pending)])
+        if "INTERNALERROR" in r.stdout or r.returncode not in (0, 1) or "Traceback (most recent call last)" in r.stderr:
+            raise Violation("session-broken", f"pending={pending} rc={r.returncode}\n{src}\n{r.stdout[-1500:]}\n{r.stderr[-1500:]}")
+        together = r.files_after["test_a.py"]
+    finally:
+        shutil.rmtree(d, ignore_errors=True)
+    if _dump(together, "together (real session)", src) != ref:
+        raise Violation("order-dependent:real-session",
+                        f"pending={pending}: a real session approving them together differs from one category per run\n"
+                        f"--- original\n{src}\n--- together\n{together.decode()}\n--- one at a time\n{cur.decode()}")
+    multi = any(len(flags) >= 2 for _pos, flags in probe.per_site)
+    return {"nontrivial": multi, "classes": [f"k={len(pending)}", "real-session"],
+            "sample": {"pending": pending, "before": src, "after": together.decode()}}
+
+
 ARMS = [
     HypArm("orders", _strategy, check, signature=positional_signature,
-           budget={"quick": 320, "thorough": 15000}),
+           budget={"quick": 200, "thorough": 15000}),
+    HypArm("together_real_session", _strategy, check_pytest, signature=positional_signature,
+           budget={"quick": 64, "thorough": 2000}, shrink=False),
 ]
